@@ -38,7 +38,7 @@ def main():
         checks = list(r.get('check') or [])
         rs = f'/verif/scratch/rescreen/{tag}.txt'
         rescreen = open(rs).read().strip().splitlines() if os.path.exists(rs) else []
-        final = rescreen or checks
+        final = [l for l in (rescreen or checks) if re.match(r'^C\d\d (DETECTED|MISSED|MACHINERY)', l)]
         meta = {
             'id': tag,
             'property': r['property'],
